@@ -414,6 +414,15 @@ pub fn show_value(v: &Value) -> String {
   }
 }
 
+/// Full rendering of an implementation value (for comparisons of long strings).
+pub fn show_value_full(v: &Value) -> String {
+  match v {
+    Value::Null(_) => "null".to_string(),
+    Value::FunctionDefinition(..) => "<function>".into(),
+    other => other.to_string(),
+  }
+}
+
 pub fn class_of_value(v: &Value) -> &'static str {
   match v {
     Value::Null(_) => "null",
